@@ -126,6 +126,15 @@ CLAIMED['C19'] = _c(
     'Empty directories / symlinks with data-file names are excluded; the current date is the real UTC date.',
     'TLA+ state machine + TLC exhaustive/simulate; replay with the real binary; TLC trace validation', 'DESIGN.md §4 C19', 'gotelemetry')
 
+CLAIMED['C16'] = _c(
+    'SidecarDecision.tla gives the Launch decision table (child-marker value x ReportCrashes x Upload x mode x token x local dir) and the clauses OnlyIfCalledFor, UploaderNeedsToken, NeverRecursive, OffIsInert, TokenOncePer24h; '
+    'Sidecar.tla is the start-up protocol of a process tree with the upload-token race at Stat/Remove/OpenFile(O_EXCL) granularity, with NoGrandchild, NoChildWhenOff, ChildOnlyIfNeeded, AtMostOneAcquire checked exhaustively by TLC for 2-3 '
+    '(thorough 4-5) starters and Termination under fairness. Every concretizable table row is replayed with real processes (a logging application calling telemetry.Start, a process-start log that also records children and grandchildren, '
+    'directory snapshots) and judged by TLC (SidecarRows); witness schedules into 35 race windows, simulate walks and an exhaustive DFS of all interleavings of the instrumented real acquireUploadToken are validated step by step (SidecarTrace).',
+    'Only the "only if" direction is a violation (a sidecar that is not launched is a divergence warning); 96 rows with an unusable local dir and a token are model-only; O_EXCL atomicity is the kernel\'s; with a stale token present several '
+    'starters may acquire it (outside the property).',
+    'TLA+ decision table + protocol spec + TLC exhaustive/liveness; real-process replay of table rows; scheduler replay and exhaustive DFS of the token race; TLC trace validation', 'DESIGN.md §4 C16, §10.7', 'sidecar')
+
 NOT_YET = 'check not built yet in this session (see DESIGN.md §8 build order); will be claimed when its TLA+ module and conformance harness exist'
 
 checks = []
